@@ -8,13 +8,16 @@ N == Len(Events)
 Orders == {"pre", "in", "post"}
 
 SetOfSeq(s) == {s[k] : k \in 1..Len(s)}
+Shift(calls, k) == calls          \* (the harness already subtracts the start depth; -99 marks a data object that was not handed through)
 VisitVerdict(e) ==
   LET h == e.h  root == e.root IN
-  IF ~WF(h, root) THEN {"harness_" \o c : c \in WFFailing(h, root)} ELSE
+  \* a tree obtained through the copy protocol must itself be consistently linked (child and parent links agree)
+  IF ~WF(h, root) THEN {(IF e.via # "" THEN "links_inconsistent_after_" \o e.via \o "_" ELSE "harness_") \o c : c \in WFFailing(h, root)} ELSE
   LET exp(o) == Order(h, root, o)
       io == InOrderNodes(h, root)
       S == Reach(h, root)
   IN  {"full_" \o o : o \in {o \in Orders : e.orders[o].full # exp(o)}}
+ \cup {"start_depth_or_data_" \o o : o \in {o \in Orders : \E k \in 1..Len(e.orders[o].shifted) : e.orders[o].shifted[k] # exp(o)}}
  \cup {"reentrant_" \o o : o \in {o \in Orders : \E k \in 1..Len(e.orders[o].nested) : e.orders[o].nested[k] # exp(o)}}
  \cup {"stop_" \o o : o \in {o \in Orders : \E k \in 1..Len(e.orders[o].stops) :
             LET s == e.orders[o].stops[k] IN
